@@ -405,7 +405,11 @@ class Table:
             pos = [a.arg for a in g.node.args.posonlyargs + g.node.args.args][skip:]
             if any(k.arg == "rng" or k.arg is None for k in call.keywords): continue
             if any(isinstance(a, ast.Starred) for a in call.args): continue
-            if "rng" in pos and len(call.args) > pos.index("rng"): continue
+            if "rng" in pos and len(call.args) > pos.index("rng"):
+                a = call.args[pos.index("rng")]
+                if isinstance(a, ast.Constant) and a.value is None:
+                    self._src(f, "DROPS", "calls %s with the literal None in the rng position although a generator is at hand" % g.qn[len("pybrops."):], call)
+                continue
             self._src(f, "DROPS", "calls %s without forwarding the generator" % g.qn[len("pybrops."):], call)
 
     def class_owns_rng(self, cqn):
@@ -748,6 +752,7 @@ class A:
     def drop2(self): return ok_param(1, rng=None)
     def fwd(self): return ok_param(1, rng=self.rng)
     def fwdpos(self): return ok_param(1, self.rng)
+    def droppos(self): return ok_param(1, None)
 class B(A):
     def use(self): return numpy.random.random()
 def via_method(a): return a.use()
@@ -773,7 +778,7 @@ _SELFTEST_EXPECT = {"ok_param": 5, "bad_np_attr": 8, "bad_np_alias": 8, "bad_npr
                     "bad_os": 32, "bad_os2": 32, "bad_os3": 32, "bad_os4": 32, "bad_os5": 32, "bad_os6": 32, "bad_os7": 32, "ok_seeded": 0, "Op._do": 5, "Op._do_sub": 1, "Op._do_par": 1, "Op._do_bad": 8, "Op._do_other": 0, "Op._do_owndefault": 32, "G.run": 2, "G.run_unseeded": 32, "ok_derived": 0, "ok_types": 0,
                     "bad_global": 8, "bad_global_cond": 9, "bad_wrapper": 8, "bad_urandom": 32, "bad_secrets": 32, "ignored": 128, "stub": 0,
                     "calls_bad": 0, "nested": 8, "A.__init__": 3, "A.rng": 2, "A.rng.setter": 6, "A.use": 2, "A.drop": 64, "A.drop2": 64,
-                    "A.fwd": 2, "A.fwdpos": 2, "B.use": 8, "via_method": 0, "via_ctor": 0,
+                    "A.fwd": 2, "A.fwdpos": 2, "A.droppos": 64, "B.use": 8, "via_method": 0, "via_ctor": 0,
                     "C2.__deepcopy__": 258, "C2.__copy__": 2, "C2.snap": 258, "C2.share": 2, "C2.deep_other": 2, "bad_copy_param": 257,
                     "bad_copy_global": 264, "bad_pickle": 257, "bad_getstate": 257, "bad_reduce": 258, "bad_rs": 257, "ok_copy_other": 1,
                     "ok_shadowed_copy": 1}
